@@ -149,13 +149,13 @@ Proof.
   exists cx. split; reflexivity.
 Qed.
 
-Theorem cov_self_is_var (f : stairsQ) (a b : Qc) lc (v v' : V) : wf f -> minimal f ->
-  cov f f (Some a) (Some b) 0 lc = Ok v -> clipped_var f (Some a) (Some b) = Ok v' -> v = v'.
+Theorem cov_spec_self_is_var (f : stairsQ) (a b : Qc) lc (v v' : V) : wf f -> minimal f ->
+  cov_spec f f (Some a) (Some b) 0 lc = Ok v -> clipped_var f (Some a) (Some b) = Ok v' -> v = v'.
 Proof.
-  intros Wf Mf. unfold cov.
+  intros Wf Mf. unfold cov_spec.
   destruct (cov_operands f f (Some a) (Some b) 0 lc) as [[[f1 g1] h]|e] eqn:Eo; [|discriminate]. cbn [lift_res].
   destruct (cov_operands_self f f1 g1 (Some a) (Some b) lc h Wf Mf Eo) as (-> & (Wf1 & Mf1 & Fi & Fv) & (Wg1 & Mg1 & Gi & Gv)).
-  unfold cov_masked.
+  unfold cov_masked_spec.
   destruct (binop_api (BArith OMul) (OpS f1) (OpS g1)) as [p|e] eqn:Ep; [|discriminate]. cbn [lift_res].
   destruct (binop_api_ok (BArith OMul) (OpS f1) (OpS g1) p Wf1 Wg1 Ep) as [Wp Lp].
   rewrite (clipped_mean_canonical f1 f (Some a) (Some b) Fi Fv), (clipped_mean_canonical g1 f (Some a) (Some b) Gi Gv).
